@@ -99,6 +99,10 @@ def cases(tier, seed):
                 # other legal spellings of the path: ./name, a parent step (sub/../name, sub/dir.1/../dir.1/name), an absolute path
                 for style in ("dot", "dotdot", "dotdot.deep", "abs"):
                     yield {"k": "split", "base": name, "lines": lines, "plan": plan, "subdir": style}
+            if name in BIG and len(plan) <= 2 and (zlib.crc32(key.encode()) % 8 == 3 or (_depth(plan) >= 2 and zlib.crc32(key.encode()) % 2 == 0)):
+                # the mnemonic in another letter case (mnemonics are case-insensitive): everywhere, or only inside the included files
+                for kw in ("lower", "mixed", "nested.lower", "nested.mixed"):
+                    yield {"k": "split", "base": name, "lines": lines, "plan": plan, "kw": kw}
     # included files that contribute no statement at all (empty, or only comments and blank lines), alone, directly before another
     # INCLUDE, directly after one, and nested
     for name, lines in BIG.items():
@@ -125,22 +129,23 @@ def cases(tier, seed):
         yield {"k": "okgraph", "graph": g}
 
 
-def materialise(lines, plan, subdir=False):
+def materialise(lines, plan, subdir=False, kw=None):
     """-> (main lines, {filename: lines}) for a plan"""
     files = {}
     counter = [0]
     prefix = {False: "", None: "", True: "sub/dir.1/", "dot": "./", "dotdot": "sub/../", "dotdot.deep": "sub/dir.1/../dir.1/",
               "abs": os.getcwd() + "/"}[subdir]
 
-    def build(lo, hi, children):
+    def build(lo, hi, children, depth=0):
         out = []
         pos = lo
         for (i, j, sub) in children:
             out += lines[pos:i]
             counter[0] += 1
             fn = "{}inc{}.asm".format(prefix, counter[0])
-            files[fn] = build(i, j, sub)
-            out.append("        INCLUDE {}".format(fn))
+            files[fn] = build(i, j, sub, depth + 1)
+            word = "INCLUDE" if not kw or (kw.startswith("nested.") and depth == 0) else ("include" if kw.endswith("lower") else "Include")
+            out.append("        {} {}".format(word, fn))
             pos = j
         out += lines[pos:hi]
         return out
@@ -253,10 +258,11 @@ def check_case(case):
             res["transitions"] = 2
         else:
             lines = case["lines"]
-            main, files = materialise(lines, case["plan"], case.get("subdir", False))
+            main, files = materialise(lines, case["plan"], case.get("subdir", False), case.get("kw"))
             depth = _depth(case["plan"])
             sd = case.get("subdir")
-            cell = "split|{}|files={}|depth={}{}".format(case["base"].split(":")[0], len(files), depth, "" if not sd else "|subdir" if sd is True else "|path." + sd)
+            cell = "split|{}|files={}|depth={}{}".format(case["base"].split(":")[0], len(files), depth, "" if not sd else "|subdir" if sd is True else "|path." + sd) + \
+                   ("|kw." + case["kw"] if case.get("kw") else "")
             if sd:
                 os.makedirs("sub/dir.1")
                 files = {os.path.normpath(fn): content for fn, content in files.items()}
